@@ -160,6 +160,8 @@ struct DirSimConfig {
 };
 void set_dirsim(const DirSimConfig&);
 int open_handles();                  // DIR* + FILE* currently open via interposed calls (process-wide)
+struct DirSimStats { uint64_t streams = 0, entries = 0, unknown_dtype = 0, reordered_streams = 0; };
+DirSimStats dirsim_stats();          // cumulative, process-wide (for evidence: how often each environment behaviour was served)
 void reset_handle_count();
 
 }  // namespace sim
